@@ -37,6 +37,15 @@ func H_TD_C18_config() {
 	} else {
 		gldap.VAssertE(s.ClientAuth == tls.NoClientCert, "without WithMTLS no client certificate is requested")
 	}
+	if mtls {
+		// a second directory in the same process gets a CA of its own: the first one's pool does
+		// not grow and the second one trusts only its own CA
+		s2, _ := GetTLSConfig(vT{}, opts...)
+		gldap.VAssertE(s2 != nil && s2.ClientCAs != s.ClientCAs, "every GetTLSConfig call has its own pool")
+		if s2 != nil {
+			gldap.VAssertE(gldap.VCertPoolSize(s.ClientCAs) == 1 && gldap.VCertPoolSize(s2.ClientCAs) == 1, "WithMTLS: a directory's pool holds exactly its own CA (client certificates from another directory's CA are not accepted)")
+		}
+	}
 	gldap.VReach("config")
 }
 
